@@ -1,7 +1,7 @@
 (* C09 - Flatten removes all hierarchy and preserves leaf-level connectivity. Property theorems only. *)
 From Coq Require Import List.
 From SV Require Import Base.Base IR.State IR.NS IR.Ops Xform.Clone Xform.Xform
-  Proofs.Inv1a Proofs.Inv2a Proofs.XformInv.
+  Proofs.Inv1a Proofs.Inv2a Proofs.InvP Proofs.InvW Proofs.XformInv.
 
 (* "the netlist stays well-formed": flatten is a composition of public IR calls, so whatever it
    moves, every container keeps listing exactly the elements that name it as parent, once ... *)
@@ -15,6 +15,13 @@ Theorem C09_reference_sets_preserved : forall fuel x n,
   Inv2a (st x) -> not_stuck (flatten fuel x n) -> Inv2a (st (fst (flatten fuel x n))).
 Proof. exact flatten_inv2a. Qed.
 Print Assumptions C09_reference_sets_preserved.
+
+(* ... in fact the whole C01/C02 invariant: pins and wires agree and every instance mirrors its
+   definition after flatten *)
+Theorem C09_wellformed_preserved : forall fuel x n,
+  Inv (st x) -> not_stuck (flatten fuel x n) -> Inv (st (fst (flatten fuel x n))).
+Proof. exact flatten_inv. Qed.
+Print Assumptions C09_wellformed_preserved.
 
 (* Full statement (one leaf per leaf path named by the joined path, endpoint partition equal):
    checked on every run by the correspondence of the flatten model with the implementation and by
